@@ -109,3 +109,15 @@ Theorem C01_groups_independent : forall F (Op : ops F) gs ins k g0 i0,
   let '(t', bs', _) := group_step Op (g_cfg g) (fst hi) (g_t g) (g_blocks g) (snd hi) in mkG (g_cfg g) t' bs'.
 Proof. exact @groups_independent. Qed.
 Print Assumptions C01_groups_independent.
+
+(* the structural model of step() with gradient masks and both caches (Masks.v, C04), instantiated with the block step of
+   this file's model, computes over ANY history exactly the block-wise run of the documented step *)
+From Shampoo Require Import Masks MasksProofs OptimizerMasks.
+Theorem C01_masked_cached_optimizer_refines_blockwise :
+  forall F (Op : ops F) (c : cfg (F:=F)) (lay : layout) (vals : list (ovalue (F:=F))) (sts : list (ostate (F:=F)))
+         (h : list (pgrads (ograd (F:=F)))),
+  wf_layout lay -> length vals = n_local lay -> length sts = n_local lay -> wf_history ograd lay h ->
+  exists s, group_run (opt_bstep Op c) lay (init_state lay vals sts) h = Ok s
+            /\ observable s = spec_run (opt_bstep Op c) lay (0%Z, vals, sts) h.
+Proof. exact @masked_optimizer_refines_blockwise. Qed.
+Print Assumptions C01_masked_cached_optimizer_refines_blockwise.
